@@ -369,8 +369,6 @@ func (w *World) call(caller *frame, callpos token.Pos, fn value, args []value) v
 	panic(engineError{fmt.Sprintf("cannot call %T", fn)})
 }
 
-var gTraceInitCalls = os.Getenv("SYMGO_TRACE_INIT") == "2"
-
 func (w *World) callSSA(caller *frame, callpos token.Pos, fn *ssa.Function, args []value, env []value) value {
 	if fn.Pkg != nil {
 		if isPackageInit(fn) {
@@ -383,9 +381,6 @@ func (w *World) callSSA(caller *frame, callpos token.Pos, fn *ssa.Function, args
 		}
 	}
 	fr := &frame{w: w, caller: caller, fn: fn, callpos: callpos}
-	if w.inInit > 0 && gTraceInitCalls {
-		fmt.Fprintln(os.Stderr, "INITCALL", w.depth, fn.String())
-	}
 	w.depth++
 	if w.depth > 2000 {
 		panic(engineError{"call depth > 2000 in " + fn.String()})
